@@ -55,6 +55,7 @@ HtmlFrags == <<
   F("aq", {"KeepQuotes", "KeepWhitespace"}), F("auq", {}), F("area", {"KeepDefaultAttrVals", "KeepQuotes"}),
   F("col", {"KeepDefaultAttrVals", "KeepEndTags"}), F("pre", {}), F("ta", {}), F("ent", {"KeepWhitespace"}),
   F("br", {}), F("h", {"KeepWhitespace"}), F("styleattr", {"KeepQuotes"}), F("onattr", {"KeepQuotes"}),
+  F("kw_template", {"KeepWhitespace"}), F("kw_noscript", {"KeepWhitespace"}), F("kw_pre", {"KeepWhitespace"}), F("kw_textarea", {"KeepWhitespace"}), F("kw_br", {"KeepWhitespace"}), F("kw_select", {"KeepWhitespace"}), F("kw_span", {"KeepWhitespace"}), F("kw_div", {"KeepWhitespace"}), F("kw_img", {"KeepWhitespace"}), F("kw_button", {"KeepWhitespace"}), F("kw_script", {"KeepWhitespace"}), F("kw_style", {"KeepWhitespace"}), F("kw_iframe", {"KeepWhitespace"}), F("kw_label", {"KeepWhitespace"}), F("kw_custom", {"KeepWhitespace"}), F("kw_code", {"KeepWhitespace"}), F("kw_q", {"KeepWhitespace"}), F("kw_ins", {"KeepWhitespace"}),
   T("tstmt", {}), T("tattr", {"KeepQuotes"}), T("tmix", {"KeepWhitespace"}) >>
 XmlFrags == <<
   F("mix", {"KeepWhitespace"}), F("nest", {"KeepWhitespace"}), F("cm", {"KeepWhitespace"}),
@@ -78,7 +79,9 @@ JsFrags == <<
   F("num", {"Precision"}), F("nums", {"Precision"}), F("arrow", {"KeepVarNames", "Version"}),
   F("letc", {"KeepVarNames", "Version"}), F("cls", {"KeepVarNames", "Version"}), F("in2020", {"Version"}),
   F("cond", {}), F("loop", {"KeepVarNames"}), F("obj", {}), F("str", {"Version"}),
-  F("pow", {"Version"}), F("short", {"Version", "KeepVarNames"}) >>
+  F("pow", {"Version"}), F("short", {"Version", "KeepVarNames"}),
+  F("strkey", {"Precision"}), F("strdig", {"Precision"}), F("tpldig", {"Precision", "Version"}),
+  F("bigint", {"Precision", "Version"}), F("optkey", {"Precision", "Version"}) >>
 FragsOf(Lang) == CASE Lang = "html" -> HtmlFrags [] Lang = "xml" -> XmlFrags [] Lang = "json" -> JsonFrags
                   [] Lang = "css" -> CssFrags [] Lang = "svg" -> SvgFrags [] Lang = "js" -> JsFrags
 Frags == FragsOf(lang)
